@@ -418,6 +418,40 @@ def run_kaczmarz(cfg):
                     if len(rec.it) != nexp or not np.array_equal(S.to_flat(x), its[-1]):
                         _first(first, 'result_is_not_last_iterate', info)
                     sigs.add('kz:%s:%s:%s' % (om, loop, d[-1] < 0.5 * d[0]))
+        # random=True: the order of the operators is permuted in every sweep (numpy.random,
+        # stream owned by the configuration); every inner step is still a relaxed projection with
+        # the step of ITS operator, so the distance cannot increase whatever the order
+        for om in (1.5, 1.9):
+            omega = [om / nr ** 2 for nr in norms]
+            x0 = np.zeros(n)
+            x = dom.element(x0.copy())
+            rec = Rec()
+            _seed(cfg)
+            try:
+                odl.solvers.kaczmarz(ops, x, rhs, nsweep + 1, omega=omega, random=True,
+                                     callback=rec, callback_loop='inner')
+            except Exception as e:
+                _first(first, 'raises:' + type(e).__name__,
+                       'A=%s x_true=%s random=True: %r' % (A.tolist(), xt.tolist(), e))
+                continue
+            evals += 1
+            its = [x0] + rec.it
+            d = [R.wnorm(z - xt, wx) for z in its]
+            tol = 1e-12 * (1.0 + max(d))
+            for k in range(len(d) - 1):
+                if d[k + 1] > d[k] + tol:
+                    _first(first, 'distance_to_solution_increases',
+                           'step %d: A=%s blocks=%s wx=%s x_true=%s x0=%s omega_i*||A_i||^2=%s '
+                           'random=True (numpy.random.seed(%d)) callback_loop=inner '
+                           'distances=%s' % (k + 1, A.tolist(), parts, wx.tolist(), xt.tolist(),
+                                             x0.tolist(), om,
+                                             zlib.crc32(repr(sorted(cfg.items())).encode())
+                                             % (2 ** 31), ['%.6e' % v for v in d]))
+                    break
+            if len(rec.it) != (nsweep + 1) * len(ops) or \
+                    not np.array_equal(S.to_flat(x), its[-1]):
+                _first(first, 'result_is_not_last_iterate', 'random=True x_true=%s' % xt.tolist())
+            sigs.add('kz:random:%s:%s' % (om, d[-1] < 0.5 * d[0]))
     return {'evals': evals, 'viol': _viol(site, first), 'sig': sorted(sigs)}
 
 
@@ -1129,7 +1163,7 @@ def _grids(solver, P, tier):
             if not thorough and i % 2:
                 continue
             out.append({'tau': np.sqrt(p * rho) / nrm, 'sigma': np.sqrt(p / rho) / nrm,
-                        'acc': {key: gam},
+                        'acc': {key: gam}, 'acc_live': bool(mu_f > 0 and mu_gc > 0),
                         'tag': 'accelerated,%s=%s*modulus,tau*sigma*|L|^2=%s,tau/sigma=%s' % (
                             key, 1.0 if i % 2 == 0 else 0.5, p, rho)})
     elif solver == DR:
@@ -1350,6 +1384,12 @@ def run_ns(cfg):
                 continue
             if cfg['pat'] == 'z' and not fam.get('zero_dual_only'):
                 continue      # the zero-dual variants exist for the fixed-point clause
+            if accel and not st['acc_live']:
+                # accelerated pdhg is O(1/N) in |x_N - x*| in general (1e-3 after ~1500
+                # iterations on ROF / KL members): no horizon with a margin exists, so bounded
+                # liveness is judged only where f AND g^* are strongly convex; the fixed-point
+                # clause above needs no rate and is judged everywhere
+                continue
             # ---- (ii) bounded liveness (+ diagnostics), from every start
             for which in (['zero', 'pattern'] if (tier == 'thorough' and cfg['pat'] == 0)
                           else ['zero']):
